@@ -437,7 +437,10 @@ impl C14 {
             ctx.count_n("evaluations", 4);
             match verdict {
                 Some(0) => ctx.count("after_failed_call:same_results"),
-                Some(code) if code >= 10 => {
+                // only the three codes the closure itself can return are verdicts; any other status (66 from
+                // ThreadSanitizer's runtime giving up under the child's address-space cap, 99 from a panic outside
+                // the guarded library calls, a sanitizer's own exit code) is a child that died: no verdict
+                Some(code) if code == 11 || code == 12 || code == 14 => {
                     bad = true;
                     let f = (code - 10) as usize;
                     ctx.violation(
@@ -451,7 +454,11 @@ impl C14 {
                         &inp.stream,
                     );
                 }
-                _ => ctx.count("after_failed_call:child_died_or_hung(no verdict)"),
+                Some(code) => {
+                    ctx.count("after_failed_call:child_died_or_hung(no verdict)");
+                    ctx.count(&format!("after_failed_call:child_exit_status_{}", code));
+                }
+                None => ctx.count("after_failed_call:child_died_or_hung(no verdict)"),
             }
         }
         // (b) three concurrent phases
